@@ -23,7 +23,7 @@ for ty in range(3):
 for tp in (5, 6, 7):
     for op in (0, 1):
         tiers = {"thorough": {}}
-        if op == 0 or tp == 6: tiers["quick"] = {"defines": {"DN": 4, "DVALS": "{0,1,3,5}"}} if tp == 5 else {}
+        if op == 0 or tp in (6, 7): tiers["quick"] = {"defines": {"DN": 4, "DVALS": "{0,1,3,5}"}} if tp == 5 else {}
         HARNESSES.append(dict(COMMON, name="loc_%s%s" % (TP[tp], "_op" if op else ""), entry="h_location", defines={"TYPE": 0, "TPL": tp, "OPP": op}, encoded=EVAL, tiers=tiers,
                               bounds="location template %s with symbolic digits, logical/physical symbolic, arbitrary accumulators" % TP[tp], cost=30))
 # the nested NUMA template once more on seed S2 (real core; a CPU-less NUMA node outside package 0)
